@@ -442,3 +442,27 @@ func (w *World) popFact() {
 	w.factBlock = w.factBlock[:len(w.factBlock)-1]
 	w.factTag = w.factTag[:len(w.factTag)-1]
 }
+
+// isSentinelError: package-level variables of type error that are never
+// reassigned by convention (io.EOF, io.ErrUnexpectedEOF, context.Canceled,
+// osm.ErrScannerClosed, ...). They are modelled as distinct non-nil constants.
+func isSentinelError(pkgPath, name string, t types.Type) bool {
+	if !types.Identical(t, types.Universe.Lookup("error").Type()) {
+		return false
+	}
+	return name == "EOF" || strings.HasPrefix(name, "Err") || name == "Canceled" || name == "DeadlineExceeded" || strings.HasPrefix(name, "err")
+}
+
+func (w *World) sentinelTerm(pkgPath, name string) Term {
+	h := fnv32(pkgPath + "." + name)
+	return Term{fmt.Sprintf("(mk-iface (- %d) %d)", h, h), &Sort{Name: "Iface", Kind: KIface, Go: types.Universe.Lookup("error").Type()}}
+}
+
+func fnv32(s string) uint32 {
+	h := uint32(2166136261)
+	for i := 0; i < len(s); i++ {
+		h ^= uint32(s[i])
+		h *= 16777619
+	}
+	return h%1000000000 + 1
+}
